@@ -24,7 +24,8 @@ def eval_error(it, x=None):
 
 def _fresh_vec(it, name, n, region="FRESH"):
     A = z3.Array(it.path.fresh_name(name), z3.IntSort(), z3.RealSort())
-    return Arr.new(Vec(n, lambda i: z3.Select(A, i if not isinstance(i, int) else z3.IntVal(i)), "real", arr=A, name=name), region=region)
+    path = it.path
+    return Arr.new(Vec(n, lambda i: z3.Select(A, path.auto_index(i, n)), "real", arr=A, name=name), region=region)
 
 
 def install_evaluator_contracts(it, faults=True, log=None):
